@@ -359,6 +359,24 @@ def translate_others(prop, notes):
     return out
 
 
+def unavailable_ties(info, path=''):
+    """the ties a property's translator reported as unavailable (`unavailable` / `words_unavailable` keys with a reason, or
+    a `table: 'unavailable: …'` entry), searched through nested result dicts (not through `other_generated`)"""
+    out = []
+    if not isinstance(info, dict):
+        return out
+    for k, v in info.items():
+        if k == 'other_generated':
+            continue
+        if k in ('unavailable', 'words_unavailable') and v:
+            out.append('%s%s' % (path, v if isinstance(v, str) else '; '.join(map(str, v)) if isinstance(v, (list, tuple)) else repr(v)))
+        elif k == 'table' and isinstance(v, str) and v.startswith('unavailable'):
+            out.append(path + v)
+        elif isinstance(v, dict):
+            out += unavailable_ties(v, path + k + ': ')
+    return out
+
+
 def run_check(prop, tier='quick', seed=None, replay=None):
     gen_dir = os.path.join(LEAN, 'Ruint', 'Gen')
 
@@ -492,6 +510,13 @@ def _run_check(prop, tier='quick', seed=None, replay=None):
             rc2, text2, _ = lake_build([mod.DRV])
             if rc2 != 0:
                 raise MachineryError('driver does not build:\n' + text2[-3000:])
+    if not proof_broken:
+        # a source-derived tie of this property whose anchors vanished: its generated file was not rewritten, so the theorems
+        # over it speak about the committed (stale) facts — the obligation is no longer discharged against the current source
+        ua = unavailable_ties(gen_info)
+        if ua:
+            proof_broken = {'where': 'tie unavailable: ' + '; '.join(ua)[:600], 'log': '', 'tie_unavailable': ua}
+            notes.append('source-derived tie unavailable (anchors not found): ' + '; '.join(ua)[:300])
     drvpath = os.path.join(LEAN, '.lake', 'build', 'bin', mod.DRV)
 
     names, bad, hits, axioms_used = [], {}, [], []
